@@ -38,6 +38,7 @@
 #include <poll.h>
 #include <dirent.h>
 #include <pthread.h>
+#include <semaphore.h>
 #include <sys/wait.h>
 #include <sys/socket.h>
 #include <sys/stat.h>
@@ -167,6 +168,12 @@ static int run_in_child(void (*fn)(vh_rng *), struct bcase *cases, int n)
 		if (r < 0 && errno != EINTR) break;
 		clock_gettime(CLOCK_MONOTONIC, &t1);
 		if (t1.tv_sec - t0.tv_sec > 150) {   /* generous watchdog: inconclusive, never a verdict */
+			{
+				/* diagnostics only: where are the case process and its children blocked? */
+				char cmd[400];
+				snprintf(cmd, sizeof(cmd), "for p in %d $(pgrep -P %d); do for t in /proc/$p/task/*; do echo \"WATCHDOG-DIAG pid=$p $(cat $t/comm) wchan=$(cat $t/wchan) syscall=$(cut -d' ' -f1 $t/syscall) state=$(grep State $t/status|cut -f2)\"; done; done 1>&2", (int)pid, (int)pid);
+				if (system(cmd)) { }
+			}
 			kill(pid, SIGKILL);
 			killed = 1; watchdog_fired++;
 			vh_stat("watchdog_kills");
@@ -200,7 +207,11 @@ static int run_in_child(void (*fn)(vh_rng *), struct bcase *cases, int n)
 		while ((nl = strchr(s, '\n'))) { *nl = 0; parse_child_line(s, childexit, sizeof(childexit)); s = nl + 1; }
 		free(obuf);
 	}
-	if (killed) return n;
+	if (killed) {
+		/* vh_cur_case was set by the last BEGIN line: that case was running when the watchdog fired */
+		fprintf(stderr, "WATCHDOG: batch of %d cases starting at %ld killed, %ld finished, case %ld was running\n", n, cases[0].idx, batch_completed, vh_cur_case);
+		return n;
+	}
 	if (WIFSIGNALED(status)) {
 		if (!report) vh_viol(WTERMSIG(status) == SIGABRT ? "crash:child-signal6" : "crash:child-signal", "case process killed by signal %d; stderr tail: %.600s", WTERMSIG(status), ebuf);
 		batch_completed++;
@@ -226,16 +237,17 @@ static const char *BACKENDS[3] = { "epoll", "poll", "select" };
 #define MAXOPS 48
 enum { K_READ, K_WRITE, K_TIMER, K_SIGNAL };
 static const char *KINDN[] = { "read", "write", "timer", "signal" };
-enum { P_ADD, P_DEL, P_WRITE, P_STEP, P_TIME, P_KILL, P_ACTIVE, P_XKILL };
-static const char *OPN[] = { "add", "del", "write", "step", "time", "kill", "active", "xkill" };
-enum { F_TOP, F_CB };
+enum { P_ADD, P_DEL, P_WRITE, P_STEP, P_TIME, P_KILL, P_ACTIVE, P_XKILL, P_UNFILL, P_REFILL };
+static const char *OPN[] = { "add", "del", "write", "step", "time", "kill", "active", "xkill", "unfill", "refill" };
+enum { F_TOP, F_CB, F_NIF };   /* F_NIF: inside the callback of an event another thread just activated (wake-up notification in flight) */
 struct sop { int kind, a, b; };
 struct sslot {
 	int used, kind, pipe, sig_i, persist, et, has_tv, prio, nodrain, del_after, readd;
 	long tv_us;
 };
 struct scen {
-	int backend, sigfd, threads, npri, npipe, pipe_is_sock[MAXPIPE];
+	int backend, sigfd, threads, changelist, npri, npipe, pipe_is_sock[MAXPIPE];
+	int fullpipe;      /* index of a pipe kept full (write events on it wait for space), -1 none */
 	struct sslot sl[MAXSLOT];
 	struct sop prefix[MAXOPS]; int nprefix;
 	struct sop pre[8]; int npre;
@@ -257,13 +269,14 @@ static struct logbuf *lg;
 static struct scen *SC;
 static int role, is_child, forked, armed, invalid_run;
 static struct event_base *base;
-static struct { int rd, wr; long inpipe, step_drained, at_fork; } pp[MAXPIPE];
+static struct { int rd, wr; long inpipe, step_drained, at_fork; int full, full_at_fork; } pp[MAXPIPE];
 static struct { struct event *ev; int ncalls, readd_left; } rs[MAXSLOT];
 static volatile long prior_calls[NSIGS];
 static long prior_seen[NSIGS];
 static int cur_step, cbs_in_loop;
 static int child_log_fd = -1;
 static int skip_wake;
+static struct event *nif_ev;
 
 static void logrec(int kind, int id, int val)
 {
@@ -288,6 +301,7 @@ static void write_pipe(int p, int n)
 {
 	char buf[2048];
 	if (n > (int)sizeof(buf)) n = sizeof(buf);
+	if (p == SC->fullpipe) return;              /* the "kept full" pipe is only filled/emptied as a whole */
 	if (pp[p].inpipe + n > 16000) return;       /* stay far away from a full buffer: writability never changes */
 	memset(buf, 'x', (size_t)n);
 	for (;;) {
@@ -297,6 +311,30 @@ static void write_pipe(int p, int n)
 		if (w != n) invalid_run = 1;
 		break;
 	}
+}
+
+static void fill_pipe(int p)
+{
+	char buf[4096];
+	memset(buf, 'f', sizeof(buf));
+	for (;;) {
+		ssize_t w = __real_write(pp[p].wr, buf, sizeof(buf));
+		if (w > 0) continue;
+		if (w < 0 && errno == EINTR) continue;
+		break;
+	}
+	pp[p].full = 1;
+}
+static void unfill_pipe(int p)
+{
+	char buf[8192];
+	for (;;) {
+		ssize_t n = __real_read(pp[p].rd, buf, sizeof(buf));
+		if (n > 0) continue;
+		if (n < 0 && errno == EINTR) continue;
+		break;
+	}
+	pp[p].full = 0;
 }
 
 /* ---- identity / registration probes ---- */
@@ -374,7 +412,7 @@ static void fork_point(void)
 	lg->fork_pos = lg->n;
 	if (event_base_get_num_events(base, EVENT_BASE_COUNT_ACTIVE) > 0) c_stat(role == ROLE_CONTROL ? "ctl_forkpoints_with_active_events" : "forks_with_active_events");
 	if (role == ROLE_CONTROL) return;
-	for (i = 0; i < SC->npipe; i++) pp[i].at_fork = pp[i].inpipe;
+	for (i = 0; i < SC->npipe; i++) { pp[i].at_fork = pp[i].inpipe; pp[i].full_at_fork = pp[i].full; }
 	if (SC->backend == 0) { epfd = find_epfd(); if (epfd >= 0) ntfd = epoll_snapshot(epfd, snap0, sizeof(snap0)); }
 	notifiable0 = base->th_notify_fn != NULL;
 	if (base->th_notify_fd[0] >= 0) nid0 = eventfd_id(base->th_notify_fd[0]);
@@ -412,27 +450,17 @@ static void fork_point(void)
 	/* parent: wait until the child has run everything, collect its log */
 	__real_close(lp[1]);
 	c_log_rx.n = 0; c_log_rx.fork_pos = 0; c_log_rx.overflow = 0;
-	for (;;) {
-		ssize_t n = __real_read(lp[0], (char *)c_log_rx.r + (size_t)c_log_rx.n * sizeof(struct rec), sizeof(struct rec) * (size_t)(MAXLOG - c_log_rx.n));
-		if (n < 0 && errno == EINTR) continue;
-		if (n <= 0) break;
-		/* records are written whole (pipe writes of multiples of sizeof(rec) may still split: reassemble bytewise) */
-		{
-			static size_t partial;
-			size_t bytes = (size_t)n + partial;
-			c_log_rx.n += (int)(bytes / sizeof(struct rec));
-			partial = bytes % sizeof(struct rec);
-			if (partial) {
-				/* move on: the next read appends right after the partial record because we compute the offset from n;
-				 * keep it simple by reading the remainder now */
-				size_t need = sizeof(struct rec) - partial;
-				char *dst = (char *)c_log_rx.r + (size_t)c_log_rx.n * sizeof(struct rec) + partial;
-				while (need) { ssize_t m = __real_read(lp[0], dst, need); if (m < 0 && errno == EINTR) continue; if (m <= 0) break; dst += m; need -= (size_t)m; }
-				if (!need) c_log_rx.n++;
-				partial = 0;
-			}
+	{
+		size_t got = 0, cap = sizeof(c_log_rx.r);
+		for (;;) {
+			ssize_t n;
+			if (got >= cap) break;
+			n = __real_read(lp[0], (char *)c_log_rx.r + got, cap - got);
+			if (n < 0 && errno == EINTR) continue;
+			if (n <= 0) break;
+			got += (size_t)n;
 		}
-		if (c_log_rx.n >= MAXLOG) break;
+		c_log_rx.n = (int)(got / sizeof(struct rec));
 	}
 	__real_close(lp[0]);
 	while (waitpid(pid, &status, 0) < 0 && errno == EINTR) ;
@@ -483,15 +511,63 @@ static void ev_cb(evutil_socket_t fd, short what, void *arg)
 		event_add(rs[id].ev, (s->has_tv || s->kind == K_TIMER) ? &tv : NULL);
 	}
 }
+/* ---- cross-thread activation handshake (logical, no wall clock) ----
+ * The loop thread reaches a backend wait (the vclock wait hook runs inside the wrapped wait, i.e. after the
+ * backend released the base lock).  There it lets a helper thread call event_active() on `hs_ev`, joins the
+ * helper, and then looks at its own notify fd: because the loop is running in another thread than the caller,
+ * event_active() must have written the wake-up notification, so the notify fd must be readable now.  The real
+ * zero-timeout wait that follows in the wrapper then sees it like a real wake-up would. */
+static sem_t hs_go;
+static int hs_phase;            /* 0 idle, 1 armed, 2 done */
+static int hs_notified;
+static struct event *hs_ev;
+static pthread_t hs_thread;
 static volatile int wake_flag;
-static void wake_cb(evutil_socket_t fd, short what, void *arg) { (void)fd; (void)what; (void)arg; wake_flag = 1; }
-static void *wake_thread(void *arg)
+static void *hs_helper(void *arg)
 {
-	struct event *ev = arg;
-	struct timespec ts = { 0, 3000000 };
-	nanosleep(&ts, NULL);     /* give the loop thread time to block in the backend */
-	event_active(ev, EV_WRITE, 1);
+	(void)arg;
+	while (sem_wait(&hs_go) < 0 && errno == EINTR) ;
+	if (hs_ev) event_active(hs_ev, EV_WRITE, 1);
 	return NULL;
+}
+static void on_wait(int kind, int64_t timeout_us, void *a, void *b, void *c, int n)
+{
+	struct pollfd pf;
+	(void)kind; (void)timeout_us; (void)a; (void)b; (void)c; (void)n;
+	if (hs_phase != 1) return;
+	hs_phase = 2;
+	sem_post(&hs_go);
+	pthread_join(hs_thread, NULL);      /* the helper is completely gone before anything else (fork!) happens */
+	pf.fd = base->th_notify_fd[0]; pf.events = POLLIN; pf.revents = 0;
+	hs_notified = (pf.fd >= 0 && __real_poll(&pf, 1, 0) > 0 && (pf.revents & POLLIN)) ? 1 : 0;
+	tr("  handshake: helper activated the event, notify fd readable=%d", hs_notified);
+}
+static int hs_arm(struct event *ev)
+{
+	hs_ev = ev; hs_notified = -1;
+	sem_init(&hs_go, 0, 0);
+	hs_phase = 1;
+	if (pthread_create(&hs_thread, NULL, hs_helper, NULL)) { hs_phase = 0; return -1; }
+	return 0;
+}
+static void hs_disarm(void)
+{
+	if (hs_phase == 1) { hs_ev = NULL; hs_phase = 2; sem_post(&hs_go); pthread_join(hs_thread, NULL); }
+	hs_phase = 0;
+}
+static void wake_cb(evutil_socket_t fd, short what, void *arg) { (void)fd; (void)what; (void)arg; wake_flag = 1; }
+static void fork_point(void);
+#define NIF_ID 90
+static void logrec(int kind, int id, int val);
+static void nif_cb(evutil_socket_t fd, short what, void *arg)
+{
+	/* activated by the helper thread: its wake-up notification has been written but not yet drained */
+	(void)fd; (void)arg;
+	cbs_in_loop++;
+	logrec(R_CB, NIF_ID, what);
+	tr("  cb of the cross-thread-activated event, step=%d", cur_step);
+	if (role == ROLE_FORKED && !forked) c_stat("fork_with_notification_in_flight");
+	fork_point();
 }
 
 /* ---- engine ---- */
@@ -543,6 +619,8 @@ static void exec_op(struct sop *o, int opi)
 		if (role == ROLE_FORKED && !is_child) { tr("xkill: expecting SIG%s from the child", SIGN[o->a]); c_stat("cross_kills_expected_by_parent"); }
 		else { tr("xkill: kill self SIG%s", SIGN[o->a]); kill(getpid(), SIGS[o->a]); }
 		break;
+	case P_UNFILL: if (SC->fullpipe >= 0 && pp[SC->fullpipe].full) { tr("unfill pipe %d", SC->fullpipe); unfill_pipe(SC->fullpipe); } break;
+	case P_REFILL: if (SC->fullpipe >= 0 && !pp[SC->fullpipe].full) { tr("refill pipe %d", SC->fullpipe); fill_pipe(SC->fullpipe); } break;
 	case P_ACTIVE:
 		if (!rs[o->a].ev) break;
 		tr("event_active slot=%d res=0x%x", o->a, o->b);
@@ -555,6 +633,7 @@ static void teardown(void)
 {
 	int i;
 	for (i = 0; i < MAXSLOT; i++) if (rs[i].ev) { event_free(rs[i].ev); rs[i].ev = NULL; }
+	if (nif_ev) { event_free(nif_ev); nif_ev = NULL; }
 	if (base) { event_base_free(base); base = NULL; }
 	for (i = 0; i < SC->npipe; i++) { __real_close(pp[i].rd); __real_close(pp[i].wr); }
 }
@@ -562,28 +641,27 @@ static void teardown(void)
 static void wake_phase(void)
 {
 	struct event *wev;
-	pthread_t th;
 	int i, r;
+	char key[120];
 	if (!SC->wake_phase || !SC->threads || skip_wake) return;
-	/* real clock from here on: everything that could fire by itself is removed first */
 	for (i = 0; i < MAXSLOT; i++) if (rs[i].ev) event_del(rs[i].ev);
-	for (i = 0; i < SC->npipe; i++) drain_pipe(i);
+	for (i = 0; i < SC->npipe; i++) if (i != SC->fullpipe) drain_pipe(i);
 	wev = event_new(base, -1, 0, wake_cb, NULL);
 	if (!wev) return;
+	event_priority_set(wev, 0);
 	wake_flag = 0;
-	vclk_on = 0;
-	if (pthread_create(&th, NULL, wake_thread, wev)) { vclk_on = 1; event_free(wev); return; }
-	/* blocks in the backend until the other thread's event_active() wakes it through the notify fd; if that
-	 * wake-up is lost the harness watchdog ends the run as inconclusive */
-	for (i = 0; i < 50 && !wake_flag; i++) {
-		r = event_base_loop(base, EVLOOP_ONCE | EVLOOP_NO_EXIT_ON_EMPTY);
-		if (r < 0) break;
-	}
-	pthread_join(th, NULL);
-	vclk_on = 1;
+	if (hs_arm(wev)) { event_free(wev); return; }
+	r = event_base_loop(base, EVLOOP_ONCE | EVLOOP_NO_EXIT_ON_EMPTY);
+	hs_disarm();
 	cur_step++;
-	logrec(R_WAKE, 0, wake_flag);
 	c_stat(role == ROLE_CONTROL ? "ctl_wakeups" : is_child ? "child_wakeups" : "parent_wakeups");
+	if (r < 0 || !wake_flag || hs_notified != 1) {
+		snprintf(key, sizeof(key), "C11:wakeup-not-delivered:%s%s", role == ROLE_CONTROL ? "never-forked" : is_child ? "child" : "parent",
+			(SC->fork_mode == F_NIF && role == ROLE_FORKED) ? "-forked-with-notification-in-flight" : "");
+		c_viol(key, "event_active() from a second thread while the loop thread sat in the backend wait: notify fd readable=%d, callback ran=%d, loop returned %d (backend=%s mech=%s fork=%s)",
+			hs_notified, wake_flag, r, BACKENDS[SC->backend], SC->sigfd ? "signalfd" : "selfpipe",
+			SC->fork_mode == F_TOP ? "top-level" : SC->fork_mode == F_CB ? "in-callback" : "in-callback-of-cross-thread-activated-event");
+	}
 	event_free(wev);
 }
 
@@ -603,10 +681,12 @@ static void child_finish(void)
 	__real_close(child_log_fd);
 	/* free everything the child owns: must not disturb the parent's registrations */
 	for (i = 0; i < MAXSLOT; i++) if (rs[i].ev) { event_free(rs[i].ev); rs[i].ev = NULL; }
+	if (nif_ev) { event_free(nif_ev); nif_ev = NULL; }
 	event_base_free(base); base = NULL;
 	c_stat("child_base_frees");
 	/* put the shared pipes back to their content at fork time (the parent continues from there) */
 	for (i = 0; i < SC->npipe; i++) {
+		if (i == SC->fullpipe) { if (pp[i].full_at_fork && !pp[i].full) fill_pipe(i); else if (!pp[i].full_at_fork && pp[i].full) unfill_pipe(i); continue; }
 		drain_pipe(i);
 		pp[i].inpipe = 0;
 		if (pp[i].at_fork > 0) { long left = pp[i].at_fork; while (left > 0) { int n = left > 2048 ? 2048 : (int)left; write_pipe(i, n); left -= n; } }
@@ -622,13 +702,14 @@ static void run_scenario(int r_role)
 	int i;
 	struct sigaction sa;
 	sigset_t none;
-	role = r_role; is_child = 0; forked = 0; armed = 0; invalid_run = 0; cur_step = 0; skip_wake = 0;
+	role = r_role; is_child = 0; forked = 0; armed = 0; invalid_run = 0; cur_step = 0; skip_wake = 0; nif_ev = NULL;
 	lg = (role == ROLE_CONTROL) ? &ctl_log : &p_log;
 	lg->n = 0; lg->fork_pos = -1; lg->overflow = 0;
 	memset(rs, 0, sizeof(rs));
 	memset(pp, 0, sizeof(pp));
 	vclk_enable(5000000);
 	vclk_blocked_forever = 0;
+	vclk_wait_hook = on_wait; hs_phase = 0;
 	memset(&sa, 0, sizeof(sa)); sa.sa_handler = prior_handler; sigemptyset(&sa.sa_mask); sa.sa_flags = SA_RESTART;
 	for (i = 0; i < NSIGS; i++) { __real_sigaction(SIGS[i], &sa, NULL); prior_calls[i] = 0; prior_seen[i] = 0; }
 	sigemptyset(&none); sigprocmask(SIG_SETMASK, &none, NULL);
@@ -643,13 +724,15 @@ static void run_scenario(int r_role)
 			pp[i].rd = fds[0]; pp[i].wr = fds[1];
 		}
 	}
+	if (SC->fullpipe >= 0) fill_pipe(SC->fullpipe);
 	cfg = event_config_new();
 	for (i = 0; i < 3; i++) if (i != SC->backend) event_config_avoid_method(cfg, BACKENDS[i]);
 	if (SC->sigfd) event_config_set_flag(cfg, EVENT_BASE_FLAG_USE_SIGNALFD);
+	if (SC->changelist) event_config_set_flag(cfg, EVENT_BASE_FLAG_EPOLL_USE_CHANGELIST);
 	base = event_base_new_with_config(cfg);
 	event_config_free(cfg);
 	if (!base) { c_viol("harness:base", "event_base_new failed"); invalid_run = 1; return; }
-	if (strcmp(event_base_get_method(base), BACKENDS[SC->backend])) c_viol("harness:backend", "got %s", event_base_get_method(base));
+	if (strncmp(event_base_get_method(base), BACKENDS[SC->backend], strlen(BACKENDS[SC->backend]))) c_viol("harness:backend", "got %s", event_base_get_method(base));
 	if (SC->npri > 1) event_base_priority_init(base, SC->npri);
 	if (SC->threads && base->th_notify_fn == NULL) c_viol("harness:notifiable", "base not notifiable although threads are enabled");
 
@@ -669,13 +752,18 @@ static void run_scenario(int r_role)
 		rs[i].readd_left = s->readd;
 		if (rs[i].ev && SC->npri > 1) event_priority_set(rs[i].ev, s->prio % SC->npri);
 	}
-	tr("=== run role=%s backend=%s sigfd=%d threads=%d forkmode=%s forkslot=%d", role == ROLE_CONTROL ? "control" : "forked", BACKENDS[SC->backend], SC->sigfd, SC->threads, SC->fork_mode == F_TOP ? "top" : "callback", SC->fork_slot);
+	tr("=== run role=%s backend=%s sigfd=%d threads=%d forkmode=%s forkslot=%d", role == ROLE_CONTROL ? "control" : "forked", BACKENDS[SC->backend], SC->sigfd, SC->threads, SC->fork_mode == F_TOP ? "top" : SC->fork_mode == F_CB ? "callback" : "xthread-callback", SC->fork_slot);
 	for (i = 0; i < SC->nprefix; i++) exec_op(&SC->prefix[i], i);
 	/* the fork step */
 	for (i = 0; i < SC->npre; i++) exec_op(&SC->pre[i], 100 + i);
 	if (SC->fork_mode == F_TOP) { if (role == ROLE_FORKED) c_stat("fork_at_top_level"); fork_point(); }
-	else armed = 1;
+	else if (SC->fork_mode == F_CB) armed = 1;
+	else {
+		nif_ev = event_new(base, -1, 0, nif_cb, NULL);
+		if (nif_ev) { event_priority_set(nif_ev, 0); if (hs_arm(nif_ev)) { event_free(nif_ev); nif_ev = NULL; } }
+	}
 	if (!(SC->fork_mode == F_TOP && SC->xsig >= 0)) do_step();
+	if (SC->fork_mode == F_NIF) { hs_disarm(); if (nif_ev && hs_notified != 1 && !is_child) c_stat("nif_without_notification"); }
 	if (!forked) { if (role == ROLE_FORKED) c_stat("fork_fallback_after_step"); fork_point(); }
 	armed = 0;
 	for (i = 0; i < SC->nstim; i++) exec_op(&SC->stim[i], 200 + i);
@@ -729,7 +817,7 @@ static void compare_logs(const char *who, struct rec *a, int na, struct rec *b, 
 				snprintf(key, sizeof(key), "C11:%s-diverges:%s", who, cls);
 			snprintf(desc, sizeof(desc), "%s the never-forked run %s: %s (backend=%s mech=%s threads=%d fork=%s slot %d)",
 				c < 0 ? "record only in" : "record not in", c < 0 ? "(missing after fork)" : "(extra after fork)", rec_str(r, t1, sizeof(t1)),
-				BACKENDS[SC->backend], SC->sigfd ? "signalfd" : "selfpipe", SC->threads, SC->fork_mode == F_TOP ? "top-level" : "in-callback", SC->fork_slot);
+				BACKENDS[SC->backend], SC->sigfd ? "signalfd" : "selfpipe", SC->threads, SC->fork_mode == F_TOP ? "top-level" : SC->fork_mode == F_CB ? "in-callback" : "in-xthread-activated-callback", SC->fork_slot);
 			c_viol(key, "%s", desc);
 			return;
 		}
@@ -748,13 +836,16 @@ static void gen_scenario(struct scen *sc, vh_rng *r, long idx, int threads)
 	sc->npri = vh_chance(r, 1, 3) ? (int)vh_range(r, 2, 3) : 1;
 	sc->npipe = (int)vh_range(r, 2, MAXPIPE);
 	for (i = 0; i < sc->npipe; i++) sc->pipe_is_sock[i] = vh_chance(r, 1, 2);
+	sc->changelist = (sc->backend == 0) && vh_chance(r, 1, 3);
+	sc->fullpipe = vh_chance(r, 1, 2) ? sc->npipe - 1 : -1;
 	nslot = (int)vh_range(r, 4, vh_opt.thorough ? MAXSLOT : 10);
 	for (i = 0; i < nslot; i++) {
 		struct sslot *s = &sc->sl[i];
 		s->used = 1;
 		s->kind = (int)vh_below(r, 4);
 		if (i < 4) s->kind = i;    /* every kind is present */
-		s->pipe = (int)vh_below(r, (uint64_t)sc->npipe);
+		s->pipe = (int)vh_below(r, (uint64_t)(sc->fullpipe >= 0 ? sc->npipe - 1 : sc->npipe));
+		if (s->kind == K_WRITE && sc->fullpipe >= 0 && vh_chance(r, 1, 2)) s->pipe = sc->fullpipe;   /* waits for buffer space */
 		s->sig_i = (int)vh_below(r, NSIGS);
 		s->persist = vh_chance(r, 2, 3);
 		s->prio = (int)vh_below(r, 3);
@@ -787,6 +878,7 @@ static void gen_scenario(struct scen *sc, vh_rng *r, long idx, int threads)
 			case 3: o->kind = P_DEL; o->a = sl; break;
 			case 4: o->kind = P_ADD; o->a = sl; break;
 			case 5: o->kind = P_ACTIVE; o->a = sl; o->b = sc->sl[sl].kind == K_READ ? EV_READ : sc->sl[sl].kind == K_WRITE ? EV_WRITE : sc->sl[sl].kind == K_SIGNAL ? EV_SIGNAL : EV_TIMEOUT; break;
+			case 6: o->kind = vh_chance(r, 1, 2) ? P_UNFILL : P_REFILL; break;
 			default: o->kind = P_STEP; break;
 			}
 		}
@@ -796,6 +888,7 @@ static void gen_scenario(struct scen *sc, vh_rng *r, long idx, int threads)
 	}
 	/* fork step */
 	sc->fork_mode = vh_chance(r, 1, 2) ? F_TOP : F_CB;
+	if (threads && vh_chance(r, 1, 3)) sc->fork_mode = F_NIF;
 	sc->fork_slot = ids[vh_below(r, (uint64_t)nids)];
 	sc->predel = -1;
 	if (sc->fork_mode == F_CB) {
@@ -818,9 +911,12 @@ static void gen_scenario(struct scen *sc, vh_rng *r, long idx, int threads)
 			struct sop *o = &sc->pre[sc->npre++];
 			int sl = ids[vh_below(r, (uint64_t)nids)];
 			o->a = o->b = 0;
-			switch (vh_below(r, 3)) {
+			switch (vh_below(r, 6)) {
 			case 0: o->kind = P_WRITE; o->a = (int)vh_below(r, (uint64_t)sc->npipe); o->b = (int)vh_range(r, 1, 700); break;
 			case 1: o->kind = P_TIME; o->a = (int)vh_range(r, 1, 400) * 1000; break;
+			case 2: o->kind = P_ADD; o->a = sl; break;      /* registered, not yet dispatched when the fork happens */
+			case 3: o->kind = P_DEL; o->a = sl; break;
+			case 4: o->kind = vh_chance(r, 2, 3) ? P_UNFILL : P_REFILL; break;
 			default:
 				if (sc->sl[sl].kind == K_SIGNAL) { o->kind = P_TIME; o->a = 1000; break; }
 				o->kind = P_ACTIVE; o->a = sl; o->b = sc->sl[sl].kind == K_READ ? EV_READ : sc->sl[sl].kind == K_WRITE ? EV_WRITE : EV_TIMEOUT; break;
@@ -853,11 +949,12 @@ static void gen_scenario(struct scen *sc, vh_rng *r, long idx, int threads)
 			case 7: o->kind = P_DEL; o->a = sl; break;
 			case 8: o->kind = P_ADD; o->a = sl; break;
 			case 9: o->kind = P_ACTIVE; o->a = sl; o->b = sc->sl[sl].kind == K_READ ? EV_READ : sc->sl[sl].kind == K_WRITE ? EV_WRITE : sc->sl[sl].kind == K_SIGNAL ? EV_SIGNAL : EV_TIMEOUT; break;
+			case 10: o->kind = vh_chance(r, 1, 2) ? P_UNFILL : P_REFILL; break;
 			default: o->kind = P_STEP; break;
 			}
 		}
 	}
-	sc->wake_phase = threads && vh_chance(r, 1, 2);
+	sc->wake_phase = threads && (sc->fork_mode == F_NIF || vh_chance(r, 1, 2));
 }
 
 static struct scen the_scen;
@@ -880,13 +977,15 @@ static void run_case(vh_rng *r)
 		snprintf(cfgname, sizeof(cfgname), "cfg_%s_%s", BACKENDS[sc->backend], sc->sigfd ? "signalfd" : "selfpipe");
 		c_stat(cfgname);
 		if (sc->threads) c_stat("cfg_threads_notifiable");
+		if (sc->changelist) c_stat("cfg_epoll_changelist");
+		if (sc->fullpipe >= 0) c_stat("cfg_full_pipe_with_waiting_writers");
 	}
 	{
 		char sb[500]; size_t o = 0;
 		for (i = 0; i < sc->nstim && i < 16 && o + 24 < sizeof(sb); i++)
 			o += (size_t)snprintf(sb + o, sizeof(sb) - o, "%s%s:%d:%d", i ? "," : "", OPN[sc->stim[i].kind], sc->stim[i].a, sc->stim[i].b);
 		c_line("SAMPLE {\"backend\":\"%s\",\"mech\":\"%s\",\"threads\":%d,\"fork\":\"%s\",\"fork_slot_kind\":\"%s\",\"predel\":%d,\"cross_signal\":%d,\"stimulus_head\":\"%s\"}",
-			BACKENDS[sc->backend], sc->sigfd ? "signalfd" : "selfpipe", sc->threads, sc->fork_mode == F_TOP ? "top-level" : "in-callback",
+			BACKENDS[sc->backend], sc->sigfd ? "signalfd" : "selfpipe", sc->threads, sc->fork_mode == F_TOP ? "top-level" : sc->fork_mode == F_CB ? "in-callback" : "in-xthread-activated-callback",
 			KINDN[sc->sl[sc->fork_slot].kind], sc->predel, sc->xsig, sb);
 	}
 	run_scenario(ROLE_CONTROL);
